@@ -127,14 +127,14 @@ func (mc *MetricsCollector) RecordResponse(success bool, responseTime time.Durat
 func (mc *MetricsCollector) RecordBackendRequest(backendName string, success bool, responseTime time.Duration) {
 	mc.metrics.mutex.Lock()
 
-	// Check if we're exceeding max backends limit
-	if len(mc.metrics.BackendMetrics) >= MaxBackendMetrics {
-		mc.metrics.mutex.Unlock()
-		return // Drop metric to prevent unbounded growth
-	}
-
 	backend, exists := mc.metrics.BackendMetrics[backendName]
 	if !exists {
+		// The cap bounds the number of tracked names: it must not stop the counting for
+		// backends that are already tracked
+		if len(mc.metrics.BackendMetrics) >= MaxBackendMetrics {
+			mc.metrics.mutex.Unlock()
+			return // Drop metric to prevent unbounded growth
+		}
 		backend = &BackendMetrics{
 			Name:  backendName,
 			alpha: DefaultAlpha,
